@@ -89,6 +89,11 @@ pub enum Class {
     /// packet loads (ldabs / ldind / through r1), packet or metadata stores, forward branches and
     /// helper calls; memory-safe for every packet of at least `min_pkt` bytes, deterministic
     Mixed,
+    /// loads a word from the address where ANOTHER program of the pool (index p0) lives in the
+    /// harness's memory - no region of any VM, so the interpreter must refuse it whatever the VM
+    /// has loaded before. The address is patched in when the run starts (`PEEK_PLACEHOLDER`).
+    /// Interpreter only (contains an unreachable call to a never-registered helper).
+    PeekOtherProgram,
     /// a long straight-line ALU program (more than a page of machine code)
     LongAlu,
     /// main -> f -> g, and g fails (out-of-bounds load): the interpreter returns an error from two
@@ -125,6 +130,7 @@ impl Class {
             Class::SlotPlain => "SlotPlain",
             Class::ProbeHelperThenPkt => "ProbeHelperThenPkt",
             Class::FixedBeyondEnd => "FixedBeyondEnd",
+            Class::PeekOtherProgram => "PeekOtherProgram",
             Class::Mixed => "Mixed",
             Class::LongAlu => "LongAlu",
             Class::FailInCallee => "FailInCallee",
@@ -156,6 +162,7 @@ impl Class {
             Class::StackLeakRead,
             Class::ProbeHelperThenPkt,
             Class::FixedBeyondEnd,
+            Class::PeekOtherProgram,
             Class::Mixed,
             Class::LongAlu,
             Class::FailInCallee,
@@ -488,6 +495,30 @@ pub fn gen_mixed(rng: &mut Rng, tag: u8, kind: Kind, p0len: usize, mbuff_len: us
     p.min_pkt = min_pkt;
     p.min_mbuff = if kind == Kind::Mbuff { mbuff_len } else { 0 };
     p
+}
+
+pub const PEEK_PLACEHOLDER: u64 = 0x0bad_c0de_0bad_c0de;
+
+/// Byte offset of the wide-load immediate that `patch_peek` overwrites.
+pub const PEEK_LDDW_AT: usize = 8;
+
+pub fn gen_peek_other_program(tag: u8, target: usize) -> Prog {
+    let mut b = B::new(tag);
+    b.i(LD_DW_IMM, 2, 0, 0, PEEK_PLACEHOLDER as u32 as i32);
+    b.i(0, 0, 0, 0, (PEEK_PLACEHOLDER >> 32) as u32 as i32);
+    b.i(0x61, 0, 2, 4, 0); // ldxw r0, [r2+4]: the immediate of the target's first instruction
+    b.i(0x05, 0, 0, 1, 0); // ja +1
+    b.i(CALL, 0, 0, 0, KEY_NEVER as i32); // unreachable; keeps both compilers away
+    b.trailer(tag);
+    let mut p = mk(b.v, tag, Class::PeekOtherProgram);
+    p.p0 = target as i64;
+    p
+}
+
+/// Put `addr` into the wide load of a PeekOtherProgram program.
+pub fn patch_peek(bytes: &mut [u8], addr: u64) {
+    bytes[PEEK_LDDW_AT + 4..PEEK_LDDW_AT + 8].copy_from_slice(&(addr as u32).to_le_bytes());
+    bytes[PEEK_LDDW_AT + 12..PEEK_LDDW_AT + 16].copy_from_slice(&((addr >> 32) as u32).to_le_bytes());
 }
 
 pub fn gen_long_alu(rng: &mut Rng, tag: u8) -> Prog {
